@@ -16,8 +16,9 @@ func decodeTypeSection(enabledFeatures api.CoreFeatures, r *bytes.Reader) ([]was
 		return nil, fmt.Errorf("get size of vector: %w", err)
 	}
 
-	result := make([]wasm.FunctionType, vs)
+	result := make([]wasm.FunctionType, 0, boundedSize(r, uint64(vs)))
 	for i := uint32(0); i < vs; i++ {
+		result = append(result, wasm.FunctionType{})
 		if err = decodeFunctionType(enabledFeatures, r, &result[i]); err != nil {
 			return nil, fmt.Errorf("read %d-th type: %v", i, err)
 		}
@@ -42,8 +43,9 @@ func decodeImportSection(
 	}
 
 	perModule = make(map[string][]*wasm.Import)
-	result = make([]wasm.Import, vs)
+	result = make([]wasm.Import, 0, boundedSize(r, uint64(vs)))
 	for i := uint32(0); i < vs; i++ {
+		result = append(result, wasm.Import{})
 		imp := &result[i]
 		if err = decodeImport(r, i, memorySizer, memoryLimitPages, enabledFeatures, imp); err != nil {
 			return
@@ -73,8 +75,9 @@ func decodeFunctionSection(r *bytes.Reader) ([]uint32, error) {
 		return nil, fmt.Errorf("get size of vector: %w", err)
 	}
 
-	result := make([]uint32, vs)
+	result := make([]uint32, 0, boundedSize(r, uint64(vs)))
 	for i := uint32(0); i < vs; i++ {
+		result = append(result, 0)
 		if result[i], _, err = leb128.DecodeUint32(r); err != nil {
 			return nil, fmt.Errorf("get type index: %w", err)
 		}
@@ -93,8 +96,9 @@ func decodeTableSection(r *bytes.Reader, enabledFeatures api.CoreFeatures) ([]wa
 		}
 	}
 
-	ret := make([]wasm.Table, vs)
-	for i := range ret {
+	ret := make([]wasm.Table, 0, boundedSize(r, uint64(vs)))
+	for i := uint32(0); i < vs; i++ {
+		ret = append(ret, wasm.Table{})
 		err = decodeTable(r, enabledFeatures, &ret[i])
 		if err != nil {
 			return nil, err
@@ -129,8 +133,9 @@ func decodeGlobalSection(r *bytes.Reader, enabledFeatures api.CoreFeatures) ([]w
 		return nil, fmt.Errorf("get size of vector: %w", err)
 	}
 
-	result := make([]wasm.Global, vs)
+	result := make([]wasm.Global, 0, boundedSize(r, uint64(vs)))
 	for i := uint32(0); i < vs; i++ {
+		result = append(result, wasm.Global{})
 		if err = decodeGlobal(r, enabledFeatures, &result[i]); err != nil {
 			return nil, fmt.Errorf("global[%d]: %w", i, err)
 		}
@@ -144,9 +149,10 @@ func decodeExportSection(r *bytes.Reader) ([]wasm.Export, map[string]*wasm.Expor
 		return nil, nil, fmt.Errorf("get size of vector: %v", sizeErr)
 	}
 
-	exportMap := make(map[string]*wasm.Export, vs)
-	exportSection := make([]wasm.Export, vs)
+	exportMap := make(map[string]*wasm.Export, boundedSize(r, uint64(vs)))
+	exportSection := make([]wasm.Export, 0, boundedSize(r, uint64(vs)))
 	for i := wasm.Index(0); i < vs; i++ {
+		exportSection = append(exportSection, wasm.Export{})
 		export := &exportSection[i]
 		err := decodeExport(r, export)
 		if err != nil {
@@ -175,8 +181,9 @@ func decodeElementSection(r *bytes.Reader, enabledFeatures api.CoreFeatures) ([]
 		return nil, fmt.Errorf("get size of vector: %w", err)
 	}
 
-	result := make([]wasm.ElementSegment, vs)
+	result := make([]wasm.ElementSegment, 0, boundedSize(r, uint64(vs)))
 	for i := uint32(0); i < vs; i++ {
+		result = append(result, wasm.ElementSegment{})
 		if err = decodeElementSegment(r, enabledFeatures, &result[i]); err != nil {
 			return nil, fmt.Errorf("read element: %w", err)
 		}
@@ -191,8 +198,9 @@ func decodeCodeSection(r *bytes.Reader) ([]wasm.Code, error) {
 		return nil, fmt.Errorf("get size of vector: %w", err)
 	}
 
-	result := make([]wasm.Code, vs)
+	result := make([]wasm.Code, 0, boundedSize(r, uint64(vs)))
 	for i := uint32(0); i < vs; i++ {
+		result = append(result, wasm.Code{})
 		err = decodeCode(r, codeSectionStart, &result[i])
 		if err != nil {
 			return nil, fmt.Errorf("read %d-th code segment: %v", i, err)
@@ -207,8 +215,9 @@ func decodeDataSection(r *bytes.Reader, enabledFeatures api.CoreFeatures) ([]was
 		return nil, fmt.Errorf("get size of vector: %w", err)
 	}
 
-	result := make([]wasm.DataSegment, vs)
+	result := make([]wasm.DataSegment, 0, boundedSize(r, uint64(vs)))
 	for i := uint32(0); i < vs; i++ {
+		result = append(result, wasm.DataSegment{})
 		if err = decodeDataSegment(r, enabledFeatures, &result[i]); err != nil {
 			return nil, fmt.Errorf("read data segment: %w", err)
 		}
